@@ -133,7 +133,7 @@ class Chart:
                 for b in range(n.n_onexit):
                     L.append('%s  <onexit>%s</onexit>' % (ind, logs('X%d.%d' % (n.idx, b), 2)))
             if n.invoke:
-                L.append('%s  <invoke type="x-verif" id="inv%d" src="none"/>' % (ind, n.idx))
+                L.append('%s  <invoke type="scxml" id="inv%d"/>' % (ind, n.idx))
             if not n.trans_after_children:
                 for t in n.trans: emit_trans(t, ind + '  ')
             for c in n.children: emit(c, ind + '  ')
@@ -240,7 +240,22 @@ def nested_history_under_deep(chart):
     return False
 
 
-FINDING_PREDICATES = {'nested_history_under_deep': nested_history_under_deep}
+def targetless_in_composite(chart):
+    """a transition without target in a state that has child states"""
+    return any((not t.targets) and t.src.proper_children() for t in chart.trans if t.src.kind in ('state', 'parallel'))
+
+
+def has_invoke(chart):
+    return any(n.invoke for n in chart.nodes)
+
+
+def parallel_in_parallel(chart):
+    """a parallel state below another parallel state (both can complete in the same micro step)"""
+    return any(n.kind == 'parallel' and any(a.kind == 'parallel' for a in n.ancestors()) for n in chart.nodes)
+
+
+FINDING_PREDICATES = {'nested_history_under_deep': nested_history_under_deep, 'targetless_in_composite': targetless_in_composite,
+                      'has_invoke': has_invoke, 'parallel_in_parallel': parallel_in_parallel}
 
 
 # ---------------------------------------------------------------------- random generation
